@@ -470,6 +470,11 @@ class UpdateCollection(Message):
                 yield self._message(UpdateCollection.prefix(withdraws) + UpdateCollection.prefix(attr) + announced)
             else:
                 yield self._message(UpdateCollection.prefix(withdraws) + UpdateCollection.prefix(b'') + announced)
+            # they are sent: left in place they were sent a second time with the first MP family, and
+            # they took their size out of the room given to it (MP routes which did not fit in what
+            # was left were dropped although they fit in a message of their own)
+            withdraws = b''
+            announced = b''
 
         # Get all families that have MP announces or withdraws
         all_mp_families = set(mp_announces.keys()) | set(mp_withdraws.keys())
